@@ -161,6 +161,7 @@ func runCheck(prop, tier string, seed int) int {
 			for _, o := range again {
 				if o.Res.Answer == "unsat" {
 					o.Res.Solver += " (second attempt, 60 s)"
+					fmt.Printf("note: %s needed the second attempt (%.1fs)\n", o.Name, o.Res.Secs)
 				}
 			}
 		}
